@@ -22,7 +22,9 @@
 // (bytecode.VerifSetYield: runtime.Gosched() at pseudo-random instruction
 // counts). The test binary is built with -race.
 //
-// Oracle: every concurrent response (status, all headers, body) equals the
+// Oracle: every 2xx response, serial or concurrent, reports the inputs of its
+// own request (URL variable, p, n, header, body, user name); every concurrent
+// response (status, all headers, body) equals the
 // serial response of the same request; no handler panic; no data race
 // reported while the case ran (the race runtime's report on fd 2 is captured
 // and turned into a failure whose signature names the access sites).
@@ -49,6 +51,7 @@ import (
 	"strings"
 	"sync"
 	"testing"
+	"time"
 
 	"github.com/tucats/ego/internal/language/bytecode"
 	"github.com/tucats/ego/internal/router"
@@ -157,7 +160,8 @@ func handler(req http.Request, w *http.ResponseWriter) {
     }
     n := 0
     if nv, ok := req.Parameters["n"]; ok {
-        n, _ = strconv.Atoi(first(nv))
+        nn, _ := strconv.Atoi(first(nv))
+        n = nn
     }
     via := ""
     if hv, ok := req.Headers["Via"]; ok {
@@ -405,6 +409,39 @@ func differ(s, c answer) string {
 	return ""
 }
 
+// batchLimit protects the run against a batch that never completes.
+const batchLimit = 20 * time.Minute
+
+func mustJSON(v any) string {
+	b, _ := json.Marshal(v)
+	return string(b)
+}
+
+// ownInputs checks that a 2xx answer of a generated service reports the
+// inputs of its own request ("" when it does): the statement says that no
+// request observes another request's parameters, body or user.
+func (e *env) ownInputs(r Rq, a answer) string {
+	if a.status < 200 || a.status > 202 {
+		return ""
+	}
+	want := map[string]string{"key": r.Key, "p": r.P, "user": e.name[r.User], "body": r.Body, "via": r.Via, "n": fmt.Sprint(r.N)}
+	got := map[string]string{}
+	for _, l := range strings.Split(a.body, "\n") {
+		if i := strings.Index(l, "="); i > 0 {
+			got[l[:i]] = l[i+1:]
+		}
+	}
+	for _, k := range []string{"key", "p", "user", "body", "via", "n"} {
+		if got[k] != want[k] {
+			return k
+		}
+	}
+	if hk := a.header.Get("X-C42-Key"); hk != r.Key {
+		return "header X-C42-Key"
+	}
+	return ""
+}
+
 func clip(s string, n int) string {
 	if len(s) > n {
 		return s[:n] + "…"
@@ -519,7 +556,16 @@ func oracle(c Case) vkit.Outcome {
 			}(i)
 		}
 		close(start)
-		wg.Wait()
+		done := make(chan struct{})
+		go func() { wg.Wait(); close(done) }()
+		select {
+		case <-done:
+		case <-time.After(batchLimit):
+			// protection of the run, not a verdict: the goroutines cannot be
+			// cancelled and every later case would be compromised
+			fmt.Printf("HARNESS-ERROR property=C42 a concurrent batch of %d requests did not complete within %v (deadlock between requests?) %s\n", len(reqs), batchLimit, mustJSON(c))
+			os.Exit(3)
+		}
 		bytecode.VerifSetYield(0, 0)
 		runtime.GOMAXPROCS(old)
 		return as
@@ -538,6 +584,15 @@ func oracle(c Case) vkit.Outcome {
 	}
 	if !c.SerialFirst {
 		sa = serial()
+	}
+	for i, a := range sa {
+		if a.panicv == "" && (a.status < 200 || a.status > 202) {
+			// generated services answer 200..202 by construction; if one does
+			// not even when served alone, concurrency cannot be judged
+			out.Skip = fmt.Sprintf("a generated service does not answer 2xx in the serial run (status %d)", a.status)
+			fmt.Printf("NOTE C42: serial request %d %s answered %d: %s\n", i, reqs[i].Path, a.status, clip(a.body, 300))
+			return out
+		}
 	}
 	out.NonTrivial = cachedShared
 	okS := 0
@@ -564,8 +619,22 @@ func oracle(c Case) vkit.Outcome {
 			return out
 		}
 	}
+	for i, a := range sa {
+		if f := e.ownInputs(c.Reqs[i], a); f != "" {
+			out.Fail = &vkit.Failure{Sig: "serial run: the answer does not report the request's own " + f,
+				Observed: fmt.Sprintf("request %d %s %s: status %d headers %v body %q\nservice:\n%s", i, reqs[i].Method, reqs[i].Path, a.status, pick(a.header), clip(a.body, 500), c.Svcs[c.Reqs[i].Svc].source()),
+				Expected: fmt.Sprintf("key=%s p=%s user=%s body=%s via=%s n=%d", c.Reqs[i].Key, c.Reqs[i].P, e.name[c.Reqs[i].User], c.Reqs[i].Body, c.Reqs[i].Via, c.Reqs[i].N)}
+			return out
+		}
+	}
 	for rep, ca := range cas {
 		for i := range ca {
+			if f := e.ownInputs(c.Reqs[i], ca[i]); f != "" && ca[i].panicv == "" {
+				out.Fail = &vkit.Failure{Sig: "concurrent run: the answer does not report the request's own " + f,
+					Observed: fmt.Sprintf("%s rep=%d request %d %s %s: status %d headers %v body %q\nservice:\n%s", where, rep, i, reqs[i].Method, reqs[i].Path, ca[i].status, pick(ca[i].header), clip(ca[i].body, 500), c.Svcs[c.Reqs[i].Svc].source()),
+					Expected: fmt.Sprintf("key=%s p=%s user=%s body=%s via=%s n=%d", c.Reqs[i].Key, c.Reqs[i].P, e.name[c.Reqs[i].User], c.Reqs[i].Body, c.Reqs[i].Via, c.Reqs[i].N)}
+				return out
+			}
 			if ca[i].panicv != "" {
 				out.Fail = &vkit.Failure{Sig: "concurrent run: handler panic " + ca[i].panicv,
 					Observed: fmt.Sprintf("%s rep=%d request %d (%s): panic %s\nservice:\n%s", where, rep, i, reqs[i].Path, ca[i].panicv, c.Svcs[c.Reqs[i].Svc].source()), Expected: "the serial response, status " + fmt.Sprint(sa[i].status)}
